@@ -643,33 +643,61 @@ def r03_2_backtrack_contract(ctx: Ctx) -> None:
                 rb = resolve_name(p, rv.id) if isinstance(rv, ast.Name) else rv
                 rebuilt = isinstance(rb, ast.Call) and call_attr(rb) == "_finish_apply" and src(rb.func.value) == f"{cname}.second" and [src(a) for a in rb.args] == [up]  # type: ignore[union-attr]
                 kept = rb is not None and src(rb) == tree
+                # The decision is a Boolean function of three tests: S `upstream is <target>`, D `done` (the moved
+                # operation was fully taken care of upstream), E `<commutator>.second is <the node's operation>`.
+                #   keeping the node is wrong when not S (an upstream insertion is dropped) and when S and D and not E (the
+                #     existing operation was replaced - a projection superseding a calculation - and stays in the tree);
+                #   rebuilding with `second` is wrong when S and not D and not E (the moved operation was blocked, so a
+                #     replacement that assumes it was inserted - a projection widened by a column that does not exist -
+                #     must not be used).
+                from .. import boolfn as B
 
-                def _second_is_existing() -> bool:
-                    # the path has established that commute() handed the existing operation back as `second`
-                    for fct in facts:
-                        if fct.kind == "IS" and fct.polarity and f"{cname}.second" in fct.args:
-                            other = [a for a in fct.args if a != f"{cname}.second"]
-                            try:
-                                oe = ast.parse(other[0], mode="eval").body if other else None
-                            except SyntaxError:
-                                oe = None
-                            if oe is not None and denotes(p, oe, tree, ("operation",)):
-                                return True
+                cond, _defs = B.path_condition(p)
+                S_atoms, D_atoms, E_atoms = set(), set(), set()
+                for an in B.atoms_of(cond):
+                    kind, _, rest = an.partition("(")
+                    args = [x.strip() for x in rest.rstrip(")").split(",")] if rest else []
+                    def _den(txt, access):
+                        try:
+                            return denotes(p, ast.parse(txt, mode="eval").body, tree, access)
+                        except SyntaxError:
+                            return False
+                    if kind == "IS" and len(args) == 2 and up in args and _den([x for x in args if x != up][0] if [x for x in args if x != up] else up, ("target",)):
+                        S_atoms.add(an)
+                    elif kind == "IS" and len(args) == 2 and any(x.endswith(".second") for x in args) and any(_den(x, ("operation",)) for x in args if not x.endswith(".second")):
+                        E_atoms.add(an)
+                    elif kind == "TRUTH" and args == [dn]:
+                        D_atoms.add(an)
+
+                def _possible(want_s: bool, want_d: bool, want_e: bool) -> bool:
+                    """Can the path be taken with S, D, E having these values?"""
+                    names = sorted(B.atoms_of(cond))
+                    if len(names) > B.MAX_ATOMS:
+                        raise AnalysisError("backtrack_unary: too many tests on one path for a truth table")
+                    import itertools as _it
+
+                    for vals in _it.product((False, True), repeat=len(names)):
+                        env = dict(zip(names, vals))
+                        if any(env[a] != want_s for a in S_atoms) or any(env[a] != want_d for a in D_atoms) or any(env[a] != want_e for a in E_atoms):
+                            continue
+                        if B.evaluate(cond, env):
+                            return True
                     return False
 
-                if rebuilt:
-                    pass  # rebuilding with the commuted operation is right whether or not upstream changed
-                elif kept:
-                    if not same:
-                        problem = problem or f"the original node is returned on a path that has not established `{up} is <the node's target>`"
-                    elif not _second_is_existing():
+                if kept:
+                    if _possible(False, True, True) or _possible(False, False, True) or _possible(False, True, False) or _possible(False, False, False):
+                        problem = problem or f"the original node is returned on a path that has not established `{up} is <the node's target>`: what was inserted upstream is dropped"
+                    elif _possible(True, True, False):
                         problem = problem or (
-                            f"the original node is kept whenever `{up}` is the node's own target, without checking that {cname}.second is the node's operation: "
-                            "when commute() replaces the existing operation (a projection that supersedes a calculation: second=Identity()) and the moved "
-                            "operation does nothing further upstream, the superseded operation stays in the tree while done=True is reported"
+                            f"the original node is kept although `{up}` is the node's own target only because the moved operation did nothing upstream, and {cname}.second is not the node's operation: "
+                            "when commute() replaces the existing operation (a projection that supersedes a calculation: second=Identity()) the superseded operation stays in the tree while done=True is reported"
                         )
-                elif changed:
-                    problem = problem or f"when upstream changed the node must be rebuilt as {cname}.second._finish_apply({up})"
+                elif rebuilt:
+                    if _possible(True, False, False):
+                        problem = problem or (
+                            f"the node is rebuilt with {cname}.second although the moved operation may have been blocked upstream ({up} is the node's target and `{dn}` is false): "
+                            "a replacement that assumes the insertion (a projection widened by a calculated column) then refers to a column that does not exist"
+                        )
                 else:
                     problem = problem or f"the node is neither rebuilt as {cname}.second._finish_apply({up}) nor handed back unchanged"
                 d = v.elts[1] if isinstance(v, ast.Tuple) and len(v.elts) > 1 else None
